@@ -57,6 +57,19 @@ ObsOK(t, L, which, n) ==
 
 Skip(t) == SetOf(t.skip)
 Remaining(t) == (DOMAIN t.m0) \ Skip(t)
+(***************************************************************************)
+(* Known finding F-C13-1: the masters build a remaining glyph differently  *)
+(* (one composes it, another draws plain contours) and, where it is        *)
+(* composed, a component that is kept comes BEFORE a skipped one (or the   *)
+(* glyph also has own contours): inlining the skipped component moves its  *)
+(* contours in front of the kept components in that master only, and the   *)
+(* masters are no longer compatible (the build then fails).                *)
+(***************************************************************************)
+Reorders(g, skip) ==
+  \E j \in 1..Len(g.comps) : g.comps[j].b \in skip /\ (\E k \in 1..(j - 1) : g.comps[k].b \notin skip)
+BuiltDifferently(t, n) == (Len(t.m0[n].comps) = 0) # (Len(t.m1[n].comps) = 0)
+Known_C13_1(t) ==
+  Has(t, "err") /\ \E n \in Remaining(t) : BuiltDifferently(t, n) /\ (Reorders(t.m0[n], Skip(t)) \/ Reorders(t.m1[n], Skip(t)))
 Clauses(t) ==
   IF Has(t, "err") THEN << <<"compiles", "P", FALSE>> >> ELSE
   << <<"skipped-absent",          "P", SetOf(t.order1) \cap Skip(t) = {}>>,
@@ -73,7 +86,7 @@ First(cl, kind) == LET bad == {k \in 1..Len(cl) : cl[k][2] = kind /\ ~cl[k][3]} 
 
 Init == i = 1
 Next == /\ i <= Len(Traces)
-        /\ LET t == Traces[i]  cl == Clauses(t) IN PrintT(<<"VERDICT", t.tid, First(cl, "P"), First(cl, "M")>>)
+        /\ LET t == Traces[i]  cl == Clauses(t) IN PrintT(<<"VERDICT", t.tid, First(cl, "P"), First(cl, "M"), IF Known_C13_1(t) THEN "F-C13-1" ELSE "none">>)
         /\ i' = i + 1
 Spec == Init /\ [][Next]_i
 =============================================================================
